@@ -11,6 +11,7 @@ import PsutilModel.Proofs.C11Rows
 import PsutilModel.Proofs.C11Scan
 import PsutilModel.Proofs.C11Count
 import PsutilModel.Proofs.C11NoV6
+import PsutilModel.Proofs.C11Consist
 import PsutilModel.Model.C11Gen
 set_option linter.unusedSimpArgs false
 namespace Psutil.C11
@@ -656,6 +657,320 @@ theorem C11_ntop6_supported_reraises (le : Bool) (ip : List Nat) (port : Nat) (h
   simp only [hne, if_false, if_true] at this
   exact this
 
+/-! ## Round 2: the `except` clauses as translator facts -/
+
+/-- full statement about the owner map when descriptors / processes fail in the "cannot be inspected"
+    ways: the scan does not fail and the map holds exactly the holders of the inspectable part -/
+def ScanOwnerFull (c : Cfg) : Prop :=
+  ∀ (le : Bool) (w : WorldE), w.view.WF → w.Inspectable →
+    ∃ m, getAllInodesE c (renderWorldE le w).procs = .ok m ∧ ∀ i, sem m (renderDec i) = holders w.view i
+
+/-- **C11_scan_owner.** Holds for the extracted `except` clauses (readlink: FileNotFoundError,
+    ProcessLookupError, EINVAL, ENAMETOOLONG stepped over; get_all_inodes: FileNotFoundError,
+    ProcessLookupError, PermissionError → next process). -/
+theorem C11_scan_owner (le : Bool) : ScanOwnerFull (cfgLE le) := by
+  intro le' w hw hi
+  obtain ⟨e1, e2⟩ := erase_renderWorldE (cfgLE le) (cfgLE_good le) le' w hi
+  refine ⟨_, getAllInodesE_erase (cfgLE le) _ e2, fun i => ?_⟩
+  rw [e1, (getAllInodes_spec (cfgLE le) (cfgLE_good le).inodesExtend _).1, allHits_render le' w.view hw i]
+
+/-- the readlink clause narrowed to `except FileNotFoundError` (ESRCH no longer stepped over) -/
+def cfgNoEsrch : Cfg := { cfg with linkSkipClasses := ["FileNotFoundError"] }
+
+/-- PID 10 holds socket 7 as fd 3; its fd 4 is closed by a dying thread: readlink → ESRCH -/
+def worldESRCH : WorldE := { socks := [], procs := [(10, .ok [(3, .sock 7), (4, .fail .esrch)])], v6 := true }
+
+theorem worldESRCH_ok : worldESRCH.view.WF ∧ worldESRCH.Inspectable := by
+  constructor
+  · refine ⟨(by intro s hs; cases hs), ?_, (by intro _ s hs; cases hs)⟩
+    intro p hp fds hfd e he
+    simp only [worldESRCH, WorldE.view, List.map_cons, List.map_nil, List.mem_cons, List.not_mem_nil, or_false] at hp
+    subst hp
+    simp [viewProc, deniedIn, errDenied] at hfd
+    subst hfd
+    simp [TargetE.view] at he
+    rcases he with rfl | rfl <;> trivial
+  · intro p hp
+    simp only [worldESRCH, List.mem_cons, List.not_mem_nil, or_false] at hp
+    subst hp
+    intro x hx e he
+    simp only [List.mem_cons, List.not_mem_nil, or_false] at hx
+    rcases hx with rfl | rfl
+    · cases he
+    · simp only [TargetE.fail.injEq] at he; subst he; rfl
+
+/-- **C11_scan_esrch_counterexample.** With the narrowed clause the full statement is false: the
+    ProcessLookupError leaves `get_proc_inodes`, `get_all_inodes` drops the whole process, and the
+    holder `(10, 3)` of socket 7 is lost. (A narrowed or widened clause changes a translator fact and
+    breaks `cfg_good`.) -/
+theorem C11_scan_esrch_counterexample : ¬ ScanOwnerFull cfgNoEsrch := by
+  intro h
+  obtain ⟨m, hm, hs⟩ := h true worldESRCH worldESRCH_ok.1 worldESRCH_ok.2
+  have e7 : renderDec 7 = [55] := by simp [renderDec, renderRadix, renderRadixAux, decimal]
+  have hE : getAllInodesE cfgNoEsrch (renderWorldE true worldESRCH).procs = .ok [] := by
+    simp only [renderWorldE, worldESRCH, List.map, renderTargetE, e7]
+    rfl
+  rw [hE] at hm
+  have := hs 7
+  rw [← Except.ok.inj hm] at this
+  revert this
+  decide
+
+/-- the clause of `get_all_inodes` without PermissionError -/
+def cfgNoPerm : Cfg := { cfg with allSkipClasses := ["FileNotFoundError", "ProcessLookupError"] }
+
+/-- another user's process: `listdir` → EPERM -/
+def worldEPERM : WorldE := { socks := [], procs := [(10, .error .eperm)], v6 := true }
+
+/-- **C11_scan_eperm_counterexample.** …and without PermissionError in the clause of `get_all_inodes`
+    the system-wide scan fails on any foreign process. -/
+theorem C11_scan_eperm_counterexample : ¬ ScanOwnerFull cfgNoPerm := by
+  intro h
+  have hw : worldEPERM.view.WF := by
+    refine ⟨(by intro s hs; cases hs), ?_, (by intro _ s hs; cases hs)⟩
+    intro p hp fds hfd
+    simp only [worldEPERM, WorldE.view, List.map_cons, List.map_nil, List.mem_cons, List.not_mem_nil, or_false] at hp
+    subst hp
+    simp [viewProc] at hfd
+  have hi : worldEPERM.Inspectable := by
+    intro p hp
+    simp only [worldEPERM, List.mem_cons, List.not_mem_nil, or_false] at hp
+    subst hp
+    rfl
+  obtain ⟨m, hm, _⟩ := h true worldEPERM hw hi
+  have hE : getAllInodesE cfgNoPerm (renderWorldE true worldEPERM).procs = .error .permissionError := rfl
+  rw [hE] at hm
+  cases hm
+
+/-! ## Round 2: per-process form on a Python that cannot format IPv6 addresses -/
+
+/-- **C11_noipv6_rows_process.** `Process(pid).net_connections(kind)` on such a host, for EVERY
+    well-formed world, listed process with listable descriptors and kind: does not fail and returns the
+    rows promised for that process in the world without the IPv6 sockets that need an address text. -/
+theorem C11_noipv6_rows_process (le : Bool) (w : World) (hw : w.WF) (hn : (w.procs.map (·.1)).Nodup)
+    (kind : String) (hk : kind ∈ kinds) (p : Nat) (fds : List (Nat × Target))
+    (hl : w.procs.lookup (p + 1) = some (some fds)) :
+    ∃ rows, netConnections (cfgNoV6 le) (renderWorld le w) kind (some (p + 1)) = .ok rows
+      ∧ Accepts (expects w.dropV6 ⟨kind, some (p + 1)⟩) rows := by
+  obtain ⟨rows, h1, h2, _⟩ :=
+    netConnections_process_noV6 (cfgLE le) (cfgLE_good le) (cfgLE_tmap_good le) w hw hn kind hk p fds hl
+  exact ⟨rows, h1, h2⟩
+
+/-- …and what is left out is exactly that: an AF_INET6 row of the per-process form has both addresses empty -/
+theorem C11_noipv6_left_out_process (le : Bool) (w : World) (hw : w.WF) (hn : (w.procs.map (·.1)).Nodup)
+    (kind : String) (hk : kind ∈ kinds) (p : Nat) (fds : List (Nat × Target))
+    (hl : w.procs.lookup (p + 1) = some (some fds)) :
+    ∃ rows, netConnections (cfgNoV6 le) (renderWorld le w) kind (some (p + 1)) = .ok rows
+      ∧ ∀ r ∈ rows, r.family = 10 → r.laddr = .empty ∧ r.raddr = .empty := by
+  obtain ⟨rows, h1, h2⟩ := C11_noipv6_rows_process le w hw hn kind hk p fds hl
+  refine ⟨rows, h1, fun r hr hf => ?_⟩
+  obtain ⟨e, he, o, _, rfl⟩ := h2.justified r hr
+  obtain ⟨s, hs, _, hes⟩ := (mem_expects w.dropV6 _ e).mp he
+  rw [expectOf_eq] at hes
+  split at hes
+  · cases hes
+  · simp only [Option.some.injEq] at hes
+    subst hes
+    have hnv : needsV6Text s = false := by
+      have := (List.mem_filter.mp hs).2
+      simpa using this
+    cases hfam : s.fam with
+    | unix => simp [Expect.row, baseRow, hfam, Fam.num] at hf
+    | inet4 => simp [Expect.row, baseRow, hfam, Fam.num] at hf
+    | inet6 =>
+      simp only [needsV6Text, hfam, beq_self_eq_true, Bool.true_and, Bool.or_eq_false_iff, bne_eq_false_iff_eq] at hnv
+      simp [Expect.row, baseRow, hfam, endpoint, hnv.1, hnv.2]
+
+/-! ## Round 2: WHICH holder a TCP/UDP row shows (characterisation; the statement allows any) -/
+
+/-- **C11_rows_which.** The exact result of both forms, for EVERY well-formed world: a row is returned
+    iff it is, for some requested socket, one of `promisedRows` — for a UNIX socket one row per owner,
+    for a TCP/UDP socket the row of the FIRST owner in listing order (`owners … |>.head?`). -/
+theorem C11_rows_which (le : Bool) (w : World) (hw : w.WF) (kind : String) (hk : kind ∈ kinds) :
+    ∃ rows, netConnections (cfgLE le) (renderWorld le w) kind none = .ok rows ∧ RowsAre w ⟨kind, none⟩ rows := by
+  obtain ⟨rows, h1, _, h3⟩ := netConnections_system_rows (cfgLE le) (cfgLE_good le) (cfgLE_tmap_good le) w hw kind hk
+  exact ⟨rows, h1, h3⟩
+
+theorem C11_rows_which_process (le : Bool) (w : World) (hw : w.WF) (hn : (w.procs.map (·.1)).Nodup)
+    (kind : String) (hk : kind ∈ kinds) (p : Nat) (fds : List (Nat × Target))
+    (hl : w.procs.lookup (p + 1) = some (some fds)) :
+    ∃ rows, netConnections (cfgLE le) (renderWorld le w) kind (some (p + 1)) = .ok rows
+      ∧ RowsAre w ⟨kind, some (p + 1)⟩ rows := by
+  obtain ⟨rows, h1, _, h3⟩ :=
+    netConnections_process_rows (cfgLE le) (cfgLE_good le) (cfgLE_tmap_good le) w hw hn kind hk p fds hl
+  exact ⟨rows, h1, h3⟩
+
+/-- **C11_inet_first_holder.** System-wide, a requested TCP/UDP socket with holders `h :: _` (listing
+    order of `/proc`, then of `/proc/<pid>/fd`) is returned with the FIRST holder's PID and descriptor —
+    and every returned row built from this socket's tuple carries that holder. The statement of the
+    property only asks for SOME holder; this says which one the code shows. -/
+theorem C11_inet_first_holder (le : Bool) (w : World) (hw : w.WF) (kind : String) (hk : kind ∈ kinds)
+    (s : Sock) (hs : s ∈ w.socks) (hf : s.fam ≠ .unix) (hsel : kindSelects kind s.fam s.typ = true)
+    (h : Nat × Nat) (t : List (Nat × Nat)) (hh : holders w s.inode = h :: t) :
+    ∃ rows, netConnections (cfgLE le) (renderWorld le w) kind none = .ok rows
+      ∧ rowOf s (some h.1, (h.2 : Int)) ∈ rows
+      ∧ ∀ x ∈ promisedRows w ⟨kind, none⟩ s, x = rowOf s (some h.1, (h.2 : Int)) := by
+  obtain ⟨rows, h1, h3⟩ := C11_rows_which le w hw kind hk
+  have hp : promisedRows w ⟨kind, none⟩ s = [rowOf s (some h.1, (h.2 : Int))] := by
+    rw [promisedRows_inet _ _ _ hf, owners_system_head w kind s.inode h t hh]; rfl
+  refine ⟨rows, h1, (h3 _).mpr ⟨s, hs, hsel, by rw [hp]; simp⟩, fun x hx => by rw [hp] at hx; simpa using hx⟩
+
+/-- the per-process form shows the process' own FIRST descriptor on the socket -/
+theorem C11_inet_first_holder_process (le : Bool) (w : World) (hw : w.WF) (hn : (w.procs.map (·.1)).Nodup)
+    (kind : String) (hk : kind ∈ kinds) (p : Nat) (fds : List (Nat × Target))
+    (hl : w.procs.lookup (p + 1) = some (some fds))
+    (s : Sock) (hs : s ∈ w.socks) (hf : s.fam ≠ .unix) (hsel : kindSelects kind s.fam s.typ = true)
+    (h : Nat × Nat) (t : List (Nat × Nat))
+    (hh : (holders w s.inode).filter (fun x => x.1 == p + 1) = h :: t) :
+    ∃ rows, netConnections (cfgLE le) (renderWorld le w) kind (some (p + 1)) = .ok rows
+      ∧ rowOf s (none, (h.2 : Int)) ∈ rows := by
+  obtain ⟨rows, h1, h3⟩ := C11_rows_which_process le w hw hn kind hk p fds hl
+  refine ⟨rows, h1, (h3 _).mpr ⟨s, hs, hsel, ?_⟩⟩
+  rw [promisedRows_inet _ _ _ hf]
+  simp [owners, hh]
+
+/-- two processes (after `fork`) hold the listening TCP socket 7: PID 10 as fd 3, PID 20 as fd 5 -/
+def sockFork : Sock :=
+  { fam := .inet4, typ := 1, lip := [127, 0, 0, 1], lport := 80, rip := [0, 0, 0, 0], rport := 0,
+    state := 10, path := none, inode := 7, txq := 0, rxq := 0, uid := 0, refcnt := 2, flags := 0 }
+
+def worldFork : World :=
+  { socks := [sockFork],
+    procs := [(10, some [(3, .sock 7)]), (20, some [(5, .sock 7)])], v6 := true }
+
+theorem worldFork_wf : worldFork.WF := by
+  refine ⟨?_, ?_, (by intro h; cases h)⟩
+  · intro s hs
+    simp only [worldFork, List.mem_cons, List.not_mem_nil, or_false] at hs
+    subst hs
+    simp [Sock.WF, sockFork]
+  · intro p hp fds hfd e he
+    simp only [worldFork, List.mem_cons, List.not_mem_nil, or_false] at hp
+    rcases hp with rfl | rfl <;> simp at hfd <;> subst hfd <;> simp at he <;> subst he <;> trivial
+
+/-! ## Round 2: system-wide vs per-process -/
+
+/-- **C11_system_rows_in_process.** For EVERY well-formed world, kind and listed process `p` whose
+    descriptors are listable: every system-wide row that carries `pid = p` is — without the pid field, a
+    `pconn` has none — a row of `Process(p).net_connections(kind)`. -/
+theorem C11_system_rows_in_process (le : Bool) (w : World) (hw : w.WF) (hn : (w.procs.map (·.1)).Nodup)
+    (kind : String) (hk : kind ∈ kinds) (p : Nat) (fds : List (Nat × Target))
+    (hl : w.procs.lookup (p + 1) = some (some fds)) :
+    ∃ rowsS rowsP, netConnections (cfgLE le) (renderWorld le w) kind none = .ok rowsS
+      ∧ netConnections (cfgLE le) (renderWorld le w) kind (some (p + 1)) = .ok rowsP
+      ∧ ∀ r ∈ rowsS, r.pid = some (p + 1) → setPid none r ∈ rowsP := by
+  obtain ⟨rowsS, s1, s3⟩ := C11_rows_which le w hw kind hk
+  obtain ⟨rowsP, p1, p3⟩ := C11_rows_which_process le w hw hn kind hk p fds hl
+  refine ⟨rowsS, rowsP, s1, p1, fun r hr hp => ?_⟩
+  obtain ⟨s, hs, hsel, hx⟩ := (s3 r).mp hr
+  exact (p3 _).mpr ⟨s, hs, hsel, promised_sys_to_proc w kind (p + 1) s r hx hp⟩
+
+/-- **C11_process_rows_in_system.** Conversely, every per-process row is — with `pid = p` put back — a
+    system-wide row, provided no TCP/UDP socket of `p` is also held by a process listed before `p`
+    (`FirstAmongHolders`; UNIX sockets need no such proviso: they have a row per holder). -/
+theorem C11_process_rows_in_system (le : Bool) (w : World) (hw : w.WF) (hn : (w.procs.map (·.1)).Nodup)
+    (kind : String) (hk : kind ∈ kinds) (p : Nat) (fds : List (Nat × Target))
+    (hl : w.procs.lookup (p + 1) = some (some fds)) (hfirst : FirstAmongHolders w (p + 1)) :
+    ∃ rowsS rowsP, netConnections (cfgLE le) (renderWorld le w) kind none = .ok rowsS
+      ∧ netConnections (cfgLE le) (renderWorld le w) kind (some (p + 1)) = .ok rowsP
+      ∧ ∀ r ∈ rowsP, r.pid = none ∧ setPid (some (p + 1)) r ∈ rowsS := by
+  obtain ⟨rowsS, s1, s3⟩ := C11_rows_which le w hw kind hk
+  obtain ⟨rowsP, p1, p3⟩ := C11_rows_which_process le w hw hn kind hk p fds hl
+  refine ⟨rowsS, rowsP, s1, p1, fun r hr => ?_⟩
+  obtain ⟨s, hs, hsel, hx⟩ := (p3 r).mp hr
+  exact ⟨promised_proc_pid w kind (p + 1) s r hx,
+    (s3 _).mpr ⟨s, hs, hsel, promised_proc_to_sys w kind (p + 1) s r hx (hfirst s hs)⟩⟩
+
+/-- the UNIX rows of the per-process form are system-wide rows in EVERY world (no proviso) -/
+theorem C11_process_unix_rows_in_system (le : Bool) (w : World) (hw : w.WF) (hn : (w.procs.map (·.1)).Nodup)
+    (kind : String) (hk : kind ∈ kinds) (p : Nat) (fds : List (Nat × Target))
+    (hl : w.procs.lookup (p + 1) = some (some fds)) :
+    ∃ rowsS rowsP, netConnections (cfgLE le) (renderWorld le w) kind none = .ok rowsS
+      ∧ netConnections (cfgLE le) (renderWorld le w) kind (some (p + 1)) = .ok rowsP
+      ∧ ∀ s ∈ w.socks, s.fam = .unix → ∀ r ∈ promisedRows w ⟨kind, some (p + 1)⟩ s, r ∈ rowsP →
+          setPid (some (p + 1)) r ∈ rowsS := by
+  obtain ⟨rowsS, s1, s3⟩ := C11_rows_which le w hw kind hk
+  obtain ⟨rowsP, p1, p3⟩ := C11_rows_which_process le w hw hn kind hk p fds hl
+  refine ⟨rowsS, rowsP, s1, p1, fun s hs hu r hx hr => ?_⟩
+  obtain ⟨s', hs', hsel, _⟩ := (p3 r).mp hr
+  have hsel' : kindSelects kind s.fam s.typ = true := by
+    -- the row determines family: `r` is a row of a UNIX socket, so the kind asks for UNIX sockets
+    have hx' := hx
+    rw [promisedRows_unix _ _ _ hu] at hx'
+    obtain ⟨o, _, rfl⟩ := List.mem_map.mp hx'
+    obtain ⟨s'', hs'', hsel'', hx''⟩ := (p3 _).mp hr
+    by_cases hu'' : s''.fam = .unix
+    · rw [hu, kindSelects_unix]; rw [hu'', kindSelects_unix] at hsel''; exact hsel''
+    · exfalso
+      rw [promisedRows_inet _ _ _ hu''] at hx''
+      obtain ⟨o'', _, he⟩ := List.mem_map.mp hx''
+      have hfam := congrArg Row.family he
+      cases hf'' : s''.fam with
+      | unix => exact hu'' hf''
+      | inet4 => simp [rowOf, baseRow, hf'', hu, Fam.num] at hfam
+      | inet6 => simp [rowOf, baseRow, hf'', hu, Fam.num] at hfam
+  exact (s3 _).mpr ⟨s, hs, hsel', promised_proc_to_sys w kind (p + 1) s r hx (fun h => absurd hu h)⟩
+
+/-- **C11_sys_proc_consistent.** Together: under `FirstAmongHolders`, the per-process rows are exactly
+    the system-wide rows with `pid = p`, modulo the pid field — for all 11 kinds. -/
+theorem C11_sys_proc_consistent (le : Bool) (w : World) (hw : w.WF) (hn : (w.procs.map (·.1)).Nodup)
+    (kind : String) (hk : kind ∈ kinds) (p : Nat) (fds : List (Nat × Target))
+    (hl : w.procs.lookup (p + 1) = some (some fds)) (hfirst : FirstAmongHolders w (p + 1)) :
+    ∃ rowsS rowsP, netConnections (cfgLE le) (renderWorld le w) kind none = .ok rowsS
+      ∧ netConnections (cfgLE le) (renderWorld le w) kind (some (p + 1)) = .ok rowsP
+      ∧ ∀ x, x ∈ rowsP ↔ x ∈ (rowsS.filter fun r => r.pid == some (p + 1)).map (setPid none) := by
+  obtain ⟨rowsS, rowsP, s1, p1, h⟩ := C11_process_rows_in_system le w hw hn kind hk p fds hl hfirst
+  obtain ⟨rowsS', rowsP', s1', p1', h'⟩ := C11_system_rows_in_process le w hw hn kind hk p fds hl
+  rw [s1] at s1'; rw [p1] at p1'
+  have e1 : rowsS = rowsS' := Except.ok.inj s1'
+  have e2 : rowsP = rowsP' := Except.ok.inj p1'
+  subst e1; subst e2
+  refine ⟨rowsS, rowsP, s1, p1, fun x => ⟨fun hx => ?_, fun hx => ?_⟩⟩
+  · obtain ⟨hpid, hin⟩ := h x hx
+    refine List.mem_map.mpr ⟨setPid (some (p + 1)) x, List.mem_filter.mpr ⟨hin, by simp [setPid]⟩, ?_⟩
+    cases x; simp only [setPid] at hpid ⊢; simp [hpid]
+  · obtain ⟨r, hr, rfl⟩ := List.mem_map.mp hx
+    obtain ⟨hr1, hr2⟩ := List.mem_filter.mp hr
+    exact h' r hr1 (by simpa using hr2)
+
+/-- the statement without the proviso -/
+def SysProcConsistentFull (c : Cfg) : Prop :=
+  ∀ (le : Bool) (w : World), w.WF → (w.procs.map (·.1)).Nodup → ∀ kind ∈ kinds, ∀ (p : Nat) (fds : List (Nat × Target)),
+    w.procs.lookup (p + 1) = some (some fds) →
+    ∀ rowsS rowsP, netConnections c (renderWorld le w) kind none = .ok rowsS →
+      netConnections c (renderWorld le w) kind (some (p + 1)) = .ok rowsP →
+      ∀ x, x ∈ rowsP ↔ x ∈ (rowsS.filter fun r => r.pid == some (p + 1)).map (setPid none)
+
+/-- **C11_sys_proc_shared_inet_counterexample.** Without the proviso the equality is false, as the
+    first-holder rule implies: in `worldFork` `Process(20).net_connections('tcp4')` returns the shared
+    listening socket (fd 5) while the system-wide list shows it once, under PID 10. Not a defect against
+    the statement (one row with SOME holder is what it asks for TCP/UDP) — a documented consequence. -/
+theorem C11_sys_proc_shared_inet_counterexample (le : Bool) : ¬ SysProcConsistentFull (cfgLE le) := by
+  intro h
+  have hn : (worldFork.procs.map (·.1)).Nodup := by decide
+  obtain ⟨rowsS, s1, s3⟩ := C11_rows_which le worldFork worldFork_wf "tcp4" (by decide)
+  obtain ⟨rowsP, p1, p3⟩ := C11_rows_which_process le worldFork worldFork_wf hn "tcp4" (by decide) 19
+    [(5, .sock 7)] (by decide)
+  have := h le worldFork worldFork_wf hn "tcp4" (by decide) 19 [(5, .sock 7)] (by decide) rowsS rowsP s1 p1
+  -- the per-process form returns the socket …
+  have hP : rowOf sockFork (none, 5) ∈ rowsP := by
+    refine (p3 _).mpr ⟨sockFork, by decide, by decide, ?_⟩
+    decide
+  -- … which no system-wide row with pid 20 accounts for
+  obtain ⟨r, hr, _⟩ := List.mem_map.mp ((this _).mp hP)
+  obtain ⟨hr1, hr2⟩ := List.mem_filter.mp hr
+  obtain ⟨s, hs, _, hx⟩ := (s3 r).mp hr1
+  simp only [worldFork, List.mem_cons, List.not_mem_nil, or_false] at hs
+  subst hs
+  have hrows : promisedRows worldFork ⟨"tcp4", none⟩ sockFork = [rowOf sockFork (some 10, 3)] := by
+    decide
+  have hx' : r ∈ promisedRows worldFork ⟨"tcp4", none⟩ sockFork := hx
+  rw [hrows] at hx'
+  simp only [List.mem_cons, List.not_mem_nil, or_false] at hx'
+  subst hx'
+  revert hr2
+  decide
+
 /-! ## The hypotheses are satisfiable -/
 
 /-- a world with a listening TCP socket shared by two processes, a UNIX socket bound to a name
@@ -697,5 +1012,18 @@ example : sampleWorld.procs.lookup (9 + 1) = some (some [(3, .sock 12345), (4, .
   decide
 example : holders sampleWorld 12345 = [(10, 3), (20, 5)] := by decide
 example : "unix" ∈ kinds ∧ "bogus" ∉ kinds := by decide
+example : holders worldFork 7 = [(10, 3), (20, 5)] := by decide
+/-- `FirstAmongHolders` holds for the first holder (PID 10) and fails for the second (PID 20) -/
+example : FirstAmongHolders worldFork 10 := by
+  intro s hs _ h hh hp
+  simp only [worldFork, List.mem_cons, List.not_mem_nil, or_false] at hs
+  subst hs
+  exact ⟨(10, 3), by decide, rfl⟩
+example : FirstAmongHolders sampleWorld 10 := by
+  intro s hs hf h hh hp
+  simp only [sampleWorld, List.mem_cons, List.not_mem_nil, or_false] at hs
+  rcases hs with rfl | rfl
+  · exact ⟨(10, 3), by decide, rfl⟩
+  · exact absurd rfl hf
 
 end Psutil.C11
